@@ -36,8 +36,30 @@ func Root(m map[string]int, ch chan int) error {
 	MustThing()
 	Guarded()
 	Keeper{&cache{}}.Touch()
+	pt := &point{1, 2}
+	if pt.x.Equals(&pt.x) { // a value compared with itself: must be flagged
+		sink++
+	}
+	c, write := (fakeCtx{}).CacheContext() // created once, committed per iteration: must be flagged
+	for i := 0; i < len(m); i++ {
+		if c.n == i {
+			continue
+		}
+		write()
+	}
 	return nil
 }
+
+type coord int
+
+func (a *coord) Equals(b *coord) bool { return *a == *b }
+func (a *coord) same(b *coord) bool   { return a.Equals(b) }
+
+type point struct{ x, y coord }
+
+type fakeCtx struct{ n int }
+
+func (f fakeCtx) CacheContext() (fakeCtx, func()) { return f, func() {} }
 
 type cache struct{ n int }
 
